@@ -48,7 +48,7 @@ func c18build(depth int) (string, []c18member) {
 				c18member{path: append(append([]string{}, base...), "Sub", "Deep"), kind: "hashsubfield", value: counter, hashes: []int{len(path)}, pkgs: len(path)})
 		}
 		// inside code: full access to private members, also when called from outside
-		sb.WriteString("(defn GetVal [] val) (defn SetVal [v] (set val v)) (defn Get_val [] _val) (defn CallPriv [] (fn1)) (defn GetHidden [] (hget hh F:)) ")
+		sb.WriteString("(defn Id [x] x) (defn GetVal [] val) (defn SetVal [v] (set val v)) (defn Get_val [] _val) (defn CallPriv [] (fn1)) (defn GetHidden [] (hget hh F:)) ")
 		if d > 1 {
 			for _, p := range []string{"Pk", "pk", "_pk"} {
 				sb.WriteString("(def " + p + " " + gen(p, append(append([]string{}, path...), p), d-1) + ") ")
@@ -107,6 +107,18 @@ func c18reads() []c18route {
 			}
 			return "{tmq = " + c18dotted(root, rest) + " + 0}"
 		}},
+		// the member named by a one-element dot path handed to a public function of its package (the path is resolved late,
+		// inside the callee, where private names are in scope)
+		{"dot-argument", func(root string, rest []string, kind string) string {
+			if kind != "value" || len(rest) == 0 {
+				return ""
+			}
+			pkg := root
+			if len(rest) > 1 {
+				pkg = c18dotted(root, rest[:len(rest)-1])
+			}
+			return "(+ 0 (" + pkg + ".Id ." + rest[len(rest)-1] + "))"
+		}},
 		{"argument", func(root string, rest []string, kind string) string {
 			if kind == "func" {
 				return "(first (list (" + c18dotted(root, rest) + ")))"
@@ -161,12 +173,18 @@ func c18case(c *engine.Ctx, src string, m c18member, aliasDepth int, route c18ro
 	}
 	if write == "" {
 		form := route.read(root, rest, m.kind)
+		if form == "" {
+			return // the route does not apply to this kind of member
+		}
 		r := zy.Eval(env, form)
 		if r.Panic != "" {
 			viol("panic", r.Panic)
 			return
 		}
-		if allowed {
+		if allowed && route.name == "dot-argument" {
+			// a one-element dot path is relative to the scope that resolves it: from outside it does not name the member
+			// at all, public or not; only the privacy direction is judged on this route
+		} else if allowed {
 			if r.Short() != fmt.Sprint(m.value) {
 				viol("public-not-readable", fmt.Sprintf("%s gives %s; the member is public and holds %d", form, r, m.value))
 			}
@@ -290,7 +308,7 @@ func init() {
 		ID:    "C18",
 		Level: "exploration",
 		Rule: "a package tree of depth 3 (thorough 4) in which every package holds values, functions and hashes (with a nested hash) under an upper-case, a lower-case and an underscore name, and nested packages stored under all three kinds of names; " +
-			"for every member: every dot path from outside x {direct, alias of the top package, alias of each nested package on the way, the package held in a plain hash of the script} x 4 read routes (operand of a builtin / call through the path, right-hand side of def, infix right-hand side, argument) and 2 write routes (set, infix assignment); " +
+			"for every member: every dot path from outside x {direct, alias of the top package, alias of each nested package on the way, the package held in a plain hash of the script} x 5 read routes (operand of a builtin / call through the path, right-hand side of def, infix right-hand side, argument, one-element dot path handed to a public function of the package) and 2 write routes (set, infix assignment); " +
 			"oracle R7: reachable iff the last hop is capitalised (for hash fields: iff the hash is stored under a capitalised name), nested packages traversable under any name; allowed -> the member's unique number / the write takes effect, denied -> an error and the member unchanged (read back through an inside getter); public functions keep access to private members",
 		Assumptions: []string{"lower-case fields of a hash are not package members and are not judged"},
 		Run:         func(c *engine.Ctx) { c18all(c, c.Thorough(), "") },
